@@ -313,3 +313,118 @@ def replay_introspect(pid, path):
         return 1
     print("replay accepted by", rp["spec"])
     return 0
+
+
+# --------------------------------------------------------------------------------------- C15
+
+CT15 = ("CodegenTrace", "CodegenTrace.cfg")
+CG_DIR = os.path.join(CORPUS, "src", "bin", "codegen")
+
+
+def _brief_cg(e):
+    return {k: v for k, v in e.items() if k not in ("iface", "params", "fed")}
+
+
+def prepare_codegen(chk, thorough):
+    """descriptions -> IDL texts -> /repo's generator -> driver source.  Returns (ifaces, problem or None)."""
+    path, ifaces = enumerate_decls(chk, "MCCodegen", "MCCodegen_t.cfg" if thorough else "MCCodegen_q.cfg", "interfaces")
+    idl_dir = os.path.join(CORPUS, "idl")
+    gen_dir = os.path.join(CG_DIR, "gen")
+    subprocess.run(["python3", os.path.join(GEN, "codegen.py"), "idl", path, idl_dir], check=True)
+    ok, out = build_corpus(chk, "zc-cgen")
+    if not ok:
+        log(out[-4000:])
+        raise ToolError("zc-cgen (and with it /repo's zlink-codegen) does not build")
+    os.makedirs(gen_dir, exist_ok=True)
+    for f in os.listdir(gen_dir):
+        m = re.match(r"i(\d+)\.(rs|err)$", f)
+        if not m or int(m.group(1)) >= len(ifaces) or m.group(2) == "err":
+            os.remove(os.path.join(gen_dir, f))
+    p = subprocess.run([os.path.join(CORPUS, "target", "release", "zc-cgen"), idl_dir, gen_dir], stdout=subprocess.PIPE,
+                       stderr=subprocess.STDOUT, text=True)
+    if p.returncode != 0:
+        raise ToolError("zc-cgen failed: " + p.stdout[-2000:])
+    p = subprocess.run(["python3", os.path.join(GEN, "codegen.py"), "driver", path, gen_dir, os.path.join(CG_DIR, "generated.rs")],
+                       stdout=subprocess.PIPE, stderr=subprocess.STDOUT, text=True)
+    if p.returncode != 0:
+        # the generated module does not have the shape of the description (a method, field or variant is missing)
+        return ifaces, p.stdout.strip()[-2000:]
+    return ifaces, None
+
+
+def c15(tier):
+    chk = Check("C15", tier)
+    thorough = tier == "thorough"
+    chk.rule = ("model: Codegen.tla says when a JSON value has the shape an IDL type declares with the IDL's spellings (Conforms), "
+                "what a call made through a generated method must look like (CallOk: qualified IDL method name, parameters object "
+                "with exactly the IDL's names for the arguments passed), and when a reply / error was decoded faithfully (ReplyOk / "
+                "ErrorOk); TLC checks on every enumerated description that it is in the grammar and that a value built from it "
+                "conforms while any misspelt member does not; TLC builds the descriptions over the name alphabet of the property "
+                "(acronyms GetURL / IOError / IPv6, digits Get2FA, camelCase and snake_case, Rust keywords incl. self / crate / do / "
+                "type as field, parameter, variant and method names), non-recursive and collision-free; each is rendered to IDL, "
+                "run through /repo's zlink-codegen, the generated modules are compiled (a failure there is a violation) and every "
+                "method is called twice with values of the declared types (optional arguments present / absent), fed a reply built "
+                "from the description, and every declared error; Rust identifiers are read off the generated code by position; "
+                "TLC validates every event; distinct_nontrivial = events")
+    chk.assumptions = ["trusted: the scripted socket and the conversion of captured JSON to [k, e, a, m] records",
+                       "the driver builds Rust values from the Rust types it reads in the generated code; if the generated modules "
+                       "compile and only the driver does not, the run is a tool error (exit 2), not a verdict"]
+    ifaces, problem = prepare_codegen(chk, thorough)
+    chk.evaluations = len(ifaces)
+    chk.nontrivial = len(ifaces)
+    chk.samples = [ifaces[0]["name"]] if ifaces else []
+    if problem:
+        chk.violation("the generated module does not match its description: " + problem.splitlines()[-1], problem, "shape-mismatch.txt")
+        return chk.finish()
+    ok, out = build_corpus(chk, "zc-codegen")
+    if not ok:
+        errs = compile_errors(out, limit=40)
+        in_gen = [e for e in errs if "/gen/i" in e or "codegen/gen/" in e]
+        if in_gen:
+            chk.violation("code generated by zlink-codegen does not compile: " + in_gen[0].splitlines()[0],
+                          "\n\n".join(in_gen[:12]), "compile-errors.txt")
+            return chk.finish()
+        log("\n\n".join(errs[:6]))
+        raise ToolError("the C15 driver does not compile although the generated modules do (driver generator out of date)")
+    trace = chk.wdir("codegen.ndjson")
+    summ = run_corpus(chk, "zc-codegen", [], trace)
+    rejected, _ = validate_events(chk, CT15, trace, "codegen", "codegen", brief=_brief_cg)
+    total = summ["calls"] + summ["replies"] + summ["errors"] + summ["generator_failures"]
+    chk.evaluations = total
+    chk.traces_ok = total - rejected
+    chk.nontrivial = total
+    chk.extra.update({"interfaces_compiled": summ["ifaces"], "call_events": summ["calls"], "reply_events": summ["replies"],
+                      "error_events": summ["errors"], "generator_failures": summ["generator_failures"]})
+    chk.samples = [_brief_cg(json.loads(l)) for l in read_lines(trace)[1:120:40]]
+    return chk.finish()
+
+
+def replay_codegen(pid, path):
+    if not path.endswith(".json"):
+        print(open(path).read())
+        print("reproduced by: bin/check C15 --tier quick")
+        return 1
+    rp = json.load(open(path))
+    chk = Check(pid, "quick")
+    ifaces, problem = prepare_codegen(chk, False)
+    ok, out = (False, problem) if problem else build_corpus(chk, "zc-codegen")
+    if not ok:
+        print(out[-3000:])
+        print(f"VIOLATION property={pid} replay={path}")
+        return 1
+    trace = chk.wdir("replay-all.ndjson")
+    run_corpus(chk, "zc-codegen", [], trace)
+    want = rp["case"]
+    sel = [l for l in read_lines(trace) if '"ev":"reset"' in l or
+           all(json.loads(l).get(k) == want.get(k) for k in ("ev", "id", "mi", "ei", "present"))]
+    t2 = chk.wdir("replay.ndjson")
+    with open(t2, "w") as f:
+        f.write("\n".join(sel) + "\n")
+    r = vlib.validate_trace(rp["spec"], rp["cfg"], t2, tag=f"{pid}-replay")
+    for l in sel[1:]:
+        print(json.dumps(_brief_cg(json.loads(l))))
+    if not r.ok:
+        print(f"VIOLATION property={pid} replay={path}")
+        return 1
+    print("replay accepted by", rp["spec"])
+    return 0
